@@ -174,6 +174,7 @@ def model_dump(case, r):
     t = to_coq(case, r)
     return coq_print(PID, COQ_IMPORTS, "Eval vm_compute in model_dump (%s)." % t)[-6000:]
 
+SRC_SPECS = ["version"]     # translator/specs/version.json -> Generated/Src_Version.v (regenerated on every run)
 READY = True
 TECHNIQUE = "Coq proof (induction over op lists, order-theoretic join argument) + model/impl correspondence by vm_compute"
 DESIGN_REF = "DESIGN.md §8 C12"
